@@ -126,7 +126,16 @@ def _one(item):
     before = snapshot([top, mid])
     exp = expect_for(pdk, spec, g)
     try:
-        mod.compile(top)
+        if mode == "list":
+            first, _m = hierarchy(h, spec)
+            last, _m = hierarchy(h, spec)
+            mod.compile([first, top, last])
+            for which, t in (("first", first), ("last", last)):
+                left = [n for n, i in t.instances.items() if n in ("d", "d2") and hasattr(i.of, "prim")]
+                if left and exp[0] == "device":
+                    return ("bad", f"compile of a list of designs left {left} of the {which} design un-compiled")
+        else:
+            mod.compile(top)
     except Exception as e:
         if exp[0] in ("error", "either"):
             if descriptive(e):
@@ -283,6 +292,20 @@ def items_for(tier):
         if pdk in ("sky130", "gf180"):  # the PDKs that document selection by model name
             for cls in ("Mos", "Res2", "Cap3", "Diode", "Bipolar"):
                 out.append((pdk, (cls, {"model": "NO_SUCH_DEVICE"}), "once"))
+            # ... and names no device has that are fragments of documented ones
+            for table, cls in (("mos", "Mos"), ("res", "Res2"), ("res", "Res3"), ("cap", "Cap2"), ("cap", "Cap3"), ("diode", "Diode"), ("bjt", "Bipolar")):
+                keys = {r["key"] for r in g.get(table, [])}
+                frags = set()
+                for k in sorted(keys):
+                    frags |= {k[1:], k[:-1], k.split("_", 1)[-1], k.rsplit("_", 1)[0], k.lower() if k.lower() != k else k.upper()}
+                for f in sorted(frags - keys - {""}):
+                    out.append((pdk, (cls, {"model": f}), "once"))
+        # a list of designs: every one is compiled
+        for r in g.get("mos", [])[:4]:
+            kw = {"tp": r["tp"]} if pdk in ("sample", "asap7") else {"model": r["key"]}
+            if pdk == "asap7":
+                kw["vth"] = r.get("vth") or "STD"
+            out.append((pdk, ("Mos", kw), "list"))
         # all (type, family, threshold) triples
         for tp, fam, vth in itertools.product(TYPES, FAMILIES, VTHS):
             out.append((pdk, ("Mos", {"tp": tp, "family": fam, "vth": vth}), "once"))
